@@ -170,6 +170,10 @@ func nameVerbatimSet(c *core.Ctx, o *core.Ob, shortPkg string) (V core.ByteSet, 
 		return len(core.CallsTo(fn.Info(), v.AST, false, shortPkg+".(*scanner).tryHex")) > 0
 	}, isDef)
 	if !th['#'] {
+		if c.Prog.FuncOpt(shortPkg, "(*scanner).tryHex") == nil {
+			o.Unrec("%s: the escape decoder tryHex no longer exists as a function (folded in?): what '#' leads to is not decided", fn.Key)
+			return V, hashLiteral
+		}
 		o.Fail("%s: '#' does not lead to tryHex", fn.Key)
 	}
 	for b := 0; b < 256; b++ {
